@@ -19,6 +19,7 @@ import json
 import multiprocessing as mp
 import os
 import random
+import sys
 
 from . import common  # noqa: F401
 from . import sctp_driver as D
@@ -486,6 +487,52 @@ def _dcl_lockstep_stage(prop, thorough, sd):
     return out, traces
 
 
+REPO_TESTS = [("tests/test_rtcsctptransport.py", "RTCSctpTransportTest"),
+              ("tests/test_rtcpeerconnection.py", "datachannel")]
+
+
+def _repo_tests_stage(prop):
+    """The repository's own tests as a trace source: the tests that use data channels are run
+    under pytest in the tree under test with the recorder plugin harness/pytest_plugin/verif_trace.py
+    (loaded with -p; nothing in the repository changes) and every recorded execution is judged
+    like any other trace (event-driven clauses only: the tests have no final quiescence).  The
+    tests' own verdicts are not used; a tree on which no trace can be recorded at all is a
+    machinery failure."""
+    import subprocess
+    import tempfile
+    from .common import REPO
+    plug = os.path.join(os.path.dirname(os.path.abspath(__file__)), "pytest_plugin")
+    fd, path = tempfile.mkstemp(prefix="verif_rt_", suffix=".ndjson")
+    os.close(fd)
+    env = dict(os.environ, VERIF_TRACE_OUT=path, PYTHONPATH=os.path.join(REPO, "src") + os.pathsep + plug,
+               PYTHONDONTWRITEBYTECODE="1")
+    out = {"repo_tests_recorded": 0, "repo_tests_run": 0}
+    traces = []
+    try:
+        for f, k in REPO_TESTS:
+            try:
+                subprocess.run([sys.executable, "-m", "pytest", "-q", "-p", "no:cacheprovider", "-p", "verif_trace",
+                                f, "-k", k, "--timeout=300"],
+                               cwd=REPO, env=env, stdout=subprocess.DEVNULL, stderr=subprocess.DEVNULL, timeout=900)
+            except subprocess.TimeoutExpired:
+                out["repo_tests_timeout"] = f
+        for line in open(path):
+            o = json.loads(line)
+            out["repo_tests_run"] += 1
+            if not o.get("events"):
+                continue
+            tr = {"events": o["events"], "pr": bool(o.get("pr")) and prop != "C01", "ops": [], "origin": [None, None],
+                  "focus": PROPS[prop]["focus"], "meta": {"src": "repo-test", "test": o["test"]}}
+            traces.append(tr)
+    finally:
+        os.unlink(path)
+    out["repo_tests_recorded"] = len(traces)
+    out["repo_test_events"] = sum(len(t["events"]) for t in traces)
+    if not traces:
+        raise T.MachineryError("no trace could be recorded from the repository's own tests (%d run)" % out["repo_tests_run"])
+    return out, traces
+
+
 TEARDOWN_INV = ["TimerIffAckSent", "EndClosesChannel", "EndsForAReason", "Bounded", "ChannelOpenWhileUp"]
 TEARDOWN_DEVS = [("CompleteAnyState", "EndsForAReason"), ("NoT2Restart", "TimerIffAckSent"),
                  ("ChannelsSurviveEnd", "EndClosesChannel"), ("NoGiveUp", "Bounded")]
@@ -753,6 +800,10 @@ def run(prop):
             design_states += hs_extra["handshake_states"]
             design_trans += hs_extra["handshake_transitions"]
 
+        rt_extra = {}
+        if prop in ("C01", "C13"):
+            rt_extra, rt_traces = _repo_tests_stage(prop)
+            traces.extend(rt_traces)
         dcl_extra = {}
         if prop == "C13":
             dcl_extra, dcl_traces = _dcl_lockstep_stage(prop, thorough, sd)
@@ -810,6 +861,7 @@ def run(prop):
         rep.coverage.update(extra)
         rep.coverage.update(hs_extra)
         rep.coverage.update(dcl_extra)
+        rep.coverage.update(rt_extra)
         if not p["design"][ti] and prop not in ("C13", "C17"):
             rep.coverage["explanation"] = ("design-level model for this property: see the property's own "
                                            "specification module; states/transitions are those of the TLC trace validation")
@@ -924,6 +976,13 @@ def replay(prop, path):
             tr = ls.run([("init", {})] + [("x", {"act": a}) for a in meta["acts"]])
         finally:
             ls.close()
+    elif meta.get("src") == "repo-test":
+        _, rts = _repo_tests_stage(prop)
+        hit = [t for t in rts if t["meta"]["test"] == meta["test"]]
+        if not hit:
+            print("MACHINERY-ERROR replay: test %s recorded no trace" % meta["test"])
+            return 2
+        tr = hit[0]
     elif meta.get("src") == "teardown-lockstep":
         from .teardown_lockstep import TeardownLockStep
         ls = TeardownLockStep(meta.get("side", "B"))
